@@ -72,6 +72,9 @@ package vm
 //@ spec fun corePair(x reflect.Value, y reflect.Value) bool = (rvKind(x) == reflect.Int64 && rvKind(y) == reflect.Int64) || (rvKind(x) == reflect.Float64 && rvKind(y) == reflect.Float64) || (rvKind(x) == reflect.Int64 && rvKind(y) == reflect.Float64) || (rvKind(x) == reflect.Float64 && rvKind(y) == reflect.Int64) || (rvKind(x) == reflect.String && rvKind(y) == reflect.String) || (rvKind(x) == reflect.Bool && rvKind(y) == reflect.Bool)
 //@ spec fun eqCore(x reflect.Value, y reflect.Value) bool = ite(rvKind(x) == reflect.Int64 && rvKind(y) == reflect.Int64, rvInt(x) == rvInt(y), ite(rvKind(x) == reflect.String && rvKind(y) == reflect.String, rvStr(x) == rvStr(y), ite(rvKind(x) == reflect.Bool && rvKind(y) == reflect.Bool, rvBool(x) == rvBool(y), ite(corePair(x, y), feq(asF(x), asF(y)), eqOther(x, y)))))
 //@ spec fun eqV(a reflect.Value, b reflect.Value) bool = ite(nilV(a) || nilV(b), nilV(a) && nilV(b), eqCore(eqD(a), eqD(b)))
+// equalR(a, b): what vm.equal answers for the pair (a, b). ASSUMPTION: vm.equal is a function of its two operand
+// values (free_ensures in its contract); `in` and `switch` are specified with this one relation (C06).
+//@ spec fun equalR(a reflect.Value, b reflect.Value) bool
 //@ lemma [C06] eqV-symmetric: forall a RV, b RV :: eqV(a, b) == eqV(b, a)
 
 // ---------------------------------------------------------------------------
@@ -87,6 +90,10 @@ package vm
 
 // further observers used by the trusted reflect contracts (C01)
 //@ spec fun rvCanAddr(v reflect.Value) bool
+// rvComparable(v): reflect.Value.Comparable - the DYNAMIC value can be compared / hashed (a slice wrapped in an interface
+// cannot, although its static type interface{} can); hashableKey(k): using k as a map key does not panic
+//@ spec fun rvComparable(v reflect.Value) bool
+//@ spec fun hashableKey(k reflect.Value) bool = (rvKind(k) == reflect.Interface && rvIsNil(k)) || rvComparable(k)
 //@ spec fun chanClosedOrNil(v reflect.Value) bool
 // calleeMayPanic(f): calling the function value f may panic — true of any host function, unknown to the verifier:
 // every reflect call of a function value must therefore sit inside a recover region
